@@ -287,6 +287,34 @@ theorem C19_keepstore_remote (mac : Str → Str → List UInt8) (t R : Str) :
   · simp [keepGet, keepRemoteToken, hx]
   · cases e <;> simp [keepGet, keepRemoteToken, he]
 
+/-- keepstore keeps no memory of tokens: in any sequence of `remoteClient` calls on one process
+(any remotes, any tokens, any order, repetitions) the i-th answer is `SaltToken` of the i-th token
+for the i-th remote — in particular a token already used with remote R1 is salted afresh, for R2,
+when it is used with R2. -/
+theorem C19_keepstore_history_free (mac : Str → Str → List UInt8) (steps : List (Str × Str))
+    (i : Nat) (h : i < steps.length) :
+    (keepSeq mac steps)[i]'(by simpa [keepSeq] using h) = saltToken mac steps[i].2 steps[i].1 := by
+  simp [keepSeq, keepRemoteToken]
+
+/-- A `Get` whose locator names several remote clusters sends the request through the client of
+the last hint, and that client carries the token salted for THAT remote: for an unsalted v2 token
+and hints `rs ++ [R]` the Authorization header is `OAuth2 v2/<uuid>/<hex mac(secret, R)>`; the same
+holds for every request of a sequence (`keepGetSeq` is a plain `map`). -/
+theorem C19_keepstore_hints (mac : Str → Str → List UInt8) (t u s : Str) (more : List Str)
+    (hsp : splitSlash t = sV2 :: u :: s :: more) (hl : s.length ≠ 40) (rs : List Str) (R : Str) :
+    keepGetHints mac t (rs ++ [R]) = .requests (sOAuth2sp ++ saltedForm mac u s R) := by
+  have hsalt : ∀ r, keepRemoteToken mac t r = .ok (saltedForm mac u s r) := by
+    intro r
+    rw [keepRemoteToken, saltToken_of_split mac t r u s more hsp]
+    simp [saltLen, hl]
+  have aux : ∀ (l : List Str) (acc : Option Str),
+      keepGetHintsAux mac t (l ++ [R]) acc = .requests (sOAuth2sp ++ saltedForm mac u s R) := by
+    intro l
+    induction l with
+    | nil => intro acc; simp [keepGetHintsAux, hsalt]
+    | cons r l ih => intro acc; simp [keepGetHintsAux, hsalt, ih]
+  exact aux rs none
+
 /-! ## Non-vacuity: the hypotheses are satisfiable by non-trivial instances -/
 
 /-- a MAC with 20-byte output -/
@@ -331,6 +359,15 @@ example : provider mac20 "zrmte".toList (fun _ => .error 401)
 example : (∀ u s more, splitSlash "0123456789abcdefghijklmnopqrstuvwxyz01234".toList ≠ sV2 :: u :: s :: more) ∧
     isObsolete "0123456789abcdefghijklmnopqrstuvwxyz01234".toList = true ∧ (403 : Nat) ≠ 401 :=
   ⟨by intro u s more h; simp [splitSlash] at h, by decide, by decide⟩
+
+-- C19_keepstore_history_free / C19_keepstore_hints: the same token with two remotes in sequence
+example : keepSeq mac20 [("z1111".toList, "v2/u/s".toList), ("z2222".toList, "v2/u/s".toList)] =
+    [.ok (saltedForm mac20 "u".toList "s".toList "z1111".toList),
+     .ok (saltedForm mac20 "u".toList "s".toList "z2222".toList)] := by
+  have h := fun R => saltToken_of_split mac20 "v2/u/s".toList R "u".toList "s".toList []
+    (by simp [splitSlash, sV2])
+  have h3 : "s".toList.length ≠ saltLen := by decide
+  simp only [keepSeq, List.map, keepRemoteToken, h, if_pos h3]
 
 -- C19_secret_not_in_salted: a 50-character secret that does not occur in the uuid
 example : '/' ∉ "3kg6k6lzmp9kj5cpkcoxie963cmvjahbt2fod9zru30k1jqdmi".toList ∧
